@@ -336,7 +336,7 @@ pub fn replay(args: &Args) -> i32 {
                 return 2;
             }
         };
-        rep.case(&json!([b["ver"], b["streams"], b["dir"], b["mslot"], b["units"]]), !m.trivial);
+        rep.case(&json!([b["ver"], b["streams"], b["dir"], b["mslot"], b["nmini"], b["nmf"], b["units"]]), !m.trivial);
         sizes = (sizes.0.max(m.file.len()), sizes.1 + m.file.len());
         let ideal_streams: Vec<Value> = m.streams.iter().map(|_| json!("ok")).collect();
         let mut ideal = json!({ "streams": ideal_streams });
